@@ -299,6 +299,9 @@ def e2e_job(job):
                 for ordn, me in sorted(rr.mem_exports.items()):
                     # every exported memory through its `<module>_<name>` accessor: the instance's memory of the export's index
                     bad_ = None
+                    n_mi__ = sum(1 for i_ in m.imports if i_.kind == "memory")
+                    if me["index"] < n_mi__:         # a memory imported once more is the memory of its first import entry
+                        me = dict(me, index=e2e.import_owner(m, "memory")[me["index"]])
                     if not me["same_object"]:
                         bad_ = "the accessor does not return the instance's memory %d" % me["index"]
                     elif me["index"] == 0 and rr.mem is not None and (me["pages"] != rr.mem["pages"] or me["sha256"] != rr.mem["sha256"]):
